@@ -39,6 +39,16 @@ def gen(rng, tier):
             cases.append(Case("cli.new %s %s" % (hx(str(L)), hx(ent)), tags=("cli", "pattern"), runner="cli", meta={"log": True}))
         # short read: fewer bytes available than requested -> failure
         cases.append(Case("mn.random %d %s" % (L, hx(bytes(nb - 1))), tags=("lib", "short-read")))
+    # lengths that become a supported one when narrowed to 8 / 16 / 32 / 64 bits: L + k·2^w for every supported L
+    for L in SUP:
+        for w in (8, 16, 32, 64):
+            for k in (1, 2):
+                v = L + k * 2 ** w
+                cases.append(Case("cli.new %s %s" % (hx(str(v)), hx(bytes(40))), tags=("cli", "narrowing", "L:unsupported"), runner="cli", meta={}, nontrivial=False))
+                if v < 2 ** 64:
+                    cases.append(Case("mn.random %d %s" % (v, hx(bytes(40))), tags=("lib", "narrowing", "L:unsupported")))
+    for v in (255, 256, 257, 65535, 65536, 2 ** 31, 2 ** 32 - 1, 2 ** 32, 2 ** 63, 2 ** 64 - 1):
+        cases.append(Case("cli.new %s %s" % (hx(str(v)), hx(bytes(40))), tags=("cli", "narrowing", "L:unsupported"), runner="cli", meta={}, nontrivial=False))
     from vlib.core import perturb
     for bad in ["", "x", "-1", "12.0", "+12", "18446744073709551616", " 12"] + perturb("12") + perturb("24"):
         cases.append(Case("cli.new %s %s" % (hx(bad), hx(bytes(40))), tags=("cli", "bad-length"), runner="cli", meta={}, nontrivial=False))
